@@ -115,8 +115,10 @@ OBS = {
     "tolist": (lambda x, a: x.tolist(), lambda r, a: [list(q) for q in r]),
     "iter": (lambda x, a: [q.tolist() for q in x], lambda r, a: [list(q) for q in r]),
     "ravel": (lambda x, a: x.ravel().tolist(), lambda r, a: [v for q in r for v in q]),
-    "meta": (lambda x, a: (len(x), int(x.size), np.asarray(x.lengths).tolist(), np.asarray(x.shape[1]).tolist(), str(x.dtype) if x.size else "any"),
-             lambda r, a: (len(r), sum(len(q) for q in r), [len(q) for q in r], [len(q) for q in r], _CUR["dtype"] if sum(len(q) for q in r) else "any")),
+    "meta": (lambda x, a: (len(x), int(x.size), np.asarray(x.lengths).tolist(), np.asarray(x.shape[1]).tolist(), str(x.dtype) if x.size else "any", type(x.size).__name__, type(len(x)).__name__),
+             lambda r, a: (len(r), sum(len(q) for q in r), [len(q) for q in r], [len(q) for q in r], _CUR["dtype"] if sum(len(q) for q in r) else "any", "int", "int")),
+    # a numpy function the library does not implement is refused -- and has looked at the array like any other read
+    "unimpl": (lambda x, a: _refusal(lambda: [np.median, np.ndim, lambda y: np.take(y, [0]), lambda y: np.isin(y, [1])][a](x)), lambda r, a: "refused"),
     "reversed": (lambda x, a: [q.tolist() for q in reversed(x)], lambda r, a: [list(q) for q in reversed(r)]),       # python's sequence protocol (__len__ + __getitem__)
     "lenbool": (lambda x, a: (len(x), bool(x)), lambda r, a: (len(r), len(r) > 0)),
     "maxall": (lambda x, a: np.asarray(np.max(x)).item() if x.size else "empty", lambda r, a: max(v for q in r for v in q) if any(len(q) for q in r) else "empty"),
@@ -204,11 +206,11 @@ def _snap_same(o, sn):
 
 # observations after which the receiver is certainly materialised (used for hazard tracking; conservative:
 # repr/str of an array with more than 100 cells print a *selection* of it and leave the array itself lazy)
-MATERIALISING = {"tolist", "iter", "ravel", "sum1", "npsum1", "sumall", "nonzero", "add1", "eqself", "cumsum", "sort", "diff", "zeros", "concatself", "astype", "save"}
+MATERIALISING = {"unimpl", "tolist", "iter", "ravel", "sum1", "npsum1", "sumall", "nonzero", "add1", "eqself", "cumsum", "sort", "diff", "zeros", "concatself", "astype", "save"}
 READ_OPS = [k for k in OBS]
 NOT_READS = {"badassign"}       # attempted writes (refused, or without effect): part of the programs, never inserted as "extra reads"
 # observations whose result on float data (NaN, inf, -0.0, non-dyadic values) is defined element by element, hence exactly predictable
-FLOAT_OBS = ["reversed", "lenbool", "partnerpurity", "tolist", "iter", "ravel", "meta", "repr", "str", "row", "elem", "rowscol", "pairs", "elem_oob", "rows_oob", "badadd", "badassign", "ell", "empty", "maskidx", "subset", "padded", "nonzero", "add1", "sel", "rslice",
+FLOAT_OBS = ["reversed", "lenbool", "partnerpurity", "tolist", "iter", "ravel", "meta", "repr", "str", "row", "elem", "rowscol", "pairs", "elem_oob", "rows_oob", "badadd", "badassign", "unimpl", "ell", "empty", "maskidx", "subset", "padded", "nonzero", "add1", "sel", "rslice",
              "getcol", "colcounts", "tonp", "astype", "concatself", "zeros", "diff", "save"]
 FLOAT_READS = [o_ for o_ in FLOAT_OBS if o_ not in NOT_READS] + ["sum1", "npsum1", "sumall", "any1", "eqself", "where", "max1", "sort", "unique", "mean1", "mean0", "all1", "min1"]     # fine as *inserted reads* (no model opinion needed)
 FLOAT_POOL = [0.1, 0.7, 1e17, 1.0, -2.5, 3.25, float("inf"), float("nan"), -0.0, 0.3, 123456.789, -1e-7, float("-inf"), 2.0]
@@ -290,6 +292,8 @@ def obs_arg(rng, name, rows):
             src = rng.choice([k for k in range(n) if lens[k]])
             part = [src, rng.choice([k for k in range(n) if k != src]), True]
         return [form, rng.random() < 0.5, rng.choice([k for k in (tot + 1, tot - 1, 2 * tot, 2, 0) if k not in (1, tot)]), part]
+    if name == "unimpl":
+        return rng.randrange(4)
     if name == "getcol":
         return rng.randint(0, max(lens) - 1)
     if name in ("maskidx", "subset", "where"):
